@@ -335,8 +335,11 @@ def _join_side(rng, nr, key_dts, from_depth, n_payload, label_pool_kind, distinc
     depth_keys = key_dts[:from_depth]
     col_keys = key_dts[from_depth:]
     keyvals = []
-    for dt in key_dts:
+    for kpos, dt in enumerate(key_dts):
         dom = KEY_DOMAINS[dt] + ([NAN] if dt == 'float64' else [])
+        if n_key >= 3 and kpos < n_key - 1 and not distinct:
+            # wide composite keys: few values in the leading fields, so that rows agree on a prefix of the key and differ later
+            dom = dom[:2]
         if distinct and len(dom) >= nr:
             keyvals.append([V.normalize(dt, v) if v == v else NAN for v in rng.sample(dom, nr)])
         else:
@@ -406,7 +409,7 @@ _TEMPLATES = [('{}', '{}'), ('L.{}', '{}'), ('{}', 'R.{}'), ('l_{}', 'r_{}'), ('
 
 
 def _gen_join(rng):
-    w = rng.choice([1, 1, 1, 2])
+    w = rng.choice([1, 1, 1, 2, 2, 3, 3, 4])
     key_dts = [rng.choice(KEY_DTYPES[:7]) for _ in range(w)]
     r = rng.random()
     if r < 0.55:
